@@ -198,6 +198,8 @@ structure SView where
   frames : List Frame
   /-- one sample period as the code adds it to the last timestamp (`int(1e9 / sample_rate)`) -/
   delta : Int
+  /-- the fast scan axis runs along image axis −2 (down the rows): `scan_order[0] > scan_order[1]` -/
+  fastRows : Bool := false
 deriving Repr
 
 inductive SRes where
@@ -216,6 +218,33 @@ def SView.ranges (v : SView) : List (Int × Int) :=
     (((f.head?.bind List.head?).map (·.tmin)).getD 0, maxList (f.flatten.map (·.tmax)) + v.delta)
 
 def numColsF (f : Frame) : Nat := (f.head?.map List.length).getD 0
+
+/-- the timestamp a pixel is given (`timestamp_mean`): smallest sample timestamp plus the floored mean offset;
+    for the evenly spaced samples of a pixel that is half the span -/
+def Pix.tmean (p : Pix) : Int := p.tmin + (p.tmax - p.tmin) / 2
+
+/-- `Scan.timestamps`: per-pixel timestamps, same shape as the image -/
+def SView.timestamps (v : SView) : List (List (List Int)) := v.frames.map fun f => f.map fun r => r.map Pix.tmean
+
+/-- `pixel_time_seconds` of a DERIVED scan (ns): timestamp of the second pixel along the FAST axis of the first
+    frame minus that of pixel `[0,0]`; `none` (IndexError) when there is no second pixel along that axis -/
+def SView.pixelTime (v : SView) : Option Int := do
+  let f ← v.frames.head?
+  let a ← (f[0]?).bind (·[0]?)
+  let b ← if v.fastRows then (f[1]?).bind (·[0]?) else (f[0]?).bind (·[1]?)
+  some (b.tmean - a.tmean)
+
+/-- `pixels_per_line`: the number of pixels along the fast axis -/
+def SView.pixelsPerLine (v : SView) : Nat :=
+  match v.frames.head? with
+  | some f => if v.fastRows then f.length else numColsF f
+  | none => 0
+
+/-- `lines_per_frame`: the number of pixels along the slow axis -/
+def SView.linesPerFrame (v : SView) : Nat :=
+  match v.frames.head? with
+  | some f => if v.fastRows then numColsF f else f.length
+  | none => 0
 
 /-- rows `[y0:y1]`, columns `[x0:x1]` of one frame, Python slicing with optional bounds -/
 def cropFrame (f : Frame) (y0 y1 x0 x1 : Option Int) : Frame :=
@@ -334,11 +363,14 @@ def showSRes : SRes → String
   | .view v => "view frames=" ++ "|".intercalate (v.frames.map showImg)
       ++ " ranges=" ++ showRanges v.ranges
       ++ " absent=" ++ "|".intercalate (v.frames.map fun f => toString f.length ++ "x" ++ toString (numColsF f))
+      ++ " ts=" ++ "|".intercalate (v.timestamps.map fun f => "[" ++ ";".intercalate (f.map fun r => ",".intercalate (r.map toString)) ++ "]")
+      ++ " pt=" ++ (match v.pixelTime with | some t => toString t | none => "U")
+      ++ " ppl=" ++ toString v.pixelsPerLine ++ " lpf=" ++ toString v.linesPerFrame
 
 
 /-- ops:
   `c06.kymo <img rows of v:tmin:tmax> <delta> <px p/q> <unit> <pxum p/q|N> <linetime p/q> <scantime p/q> op…`
-  `c06.scan <frames: rows of v:tmin:tmax pixels, frames separated by |> <delta> op…` -/
+  `c06.scan <frames: rows of v:tmin:tmax pixels, frames separated by |> <delta> <fastRows 0|1> op…` -/
 def handle : List String → Option String
   | "c06.kymo" :: img :: delta :: px :: unit :: pxum :: lt :: st :: ops => do
     let img ← listListOf? pix? img
@@ -349,11 +381,12 @@ def handle : List String → Option String
     let ops ← ops.mapM kop?
     let v : KView := ⟨img, true, delta, px, unit, pxum, lt, st, false, 0⟩
     some (showKRes (runK v ops))
-  | "c06.scan" :: frames :: delta :: ops => do
+  | "c06.scan" :: frames :: delta :: fastRows :: ops => do
     let frames ← (frames.splitOn "|").mapM (listListOf? pix?)
     let delta ← int? delta
+    let fastRows ← nat? fastRows
     let ops ← ops.mapM sop?
-    some (showSRes (runS ⟨frames, delta⟩ ops))
+    some (showSRes (runS ⟨frames, delta, fastRows == 1⟩ ops))
   | _ => none
 
 end Verif.C06
